@@ -19,6 +19,8 @@ use std::time::{Duration, Instant};
 pub struct SchedX {
     scratch: Scratch,
     counter: u64,
+    /// seed images built once per process (name → image, model, three consecutive leaves)
+    seeds: BTreeMap<String, Arc<(DirImage, refmodel::Kv, Vec<Vec<Key>>)>>,
 }
 
 impl SchedX {
@@ -26,6 +28,7 @@ impl SchedX {
         SchedX {
             scratch: Scratch::new("schedx"),
             counter: 0,
+            seeds: BTreeMap::new(),
         }
     }
 }
@@ -225,6 +228,8 @@ pub struct ExploreResult {
     pub violation: Option<(String, String, Vec<usize>, Vec<String>)>, // (fingerprint, msg, schedule, trace)
     pub capped: bool,
     pub traces: BTreeSet<u64>,
+    /// labels of scheduling points seen in any execution
+    pub labels: BTreeSet<String>,
 }
 
 /// Depth-first search over all schedules with at most `bound` preemptions.
@@ -236,6 +241,7 @@ pub fn explore(mk: &mut dyn FnMut() -> Execution, bound: usize, fixed: Option<Ve
         violation: None,
         capped: false,
         traces: BTreeSet::new(),
+        labels: BTreeSet::new(),
     };
     let mut stack: Vec<Vec<usize>> = vec![fixed.clone().unwrap_or_default()];
     while let Some(prefix) = stack.pop() {
@@ -249,6 +255,16 @@ pub fn explore(mk: &mut dyn FnMut() -> Execution, bound: usize, fixed: Option<Ve
         res.executions += 1;
         res.steps += steps.len() as u64;
         res.traces.insert(fnv_str(&trace.join(" ")));
+        if std::env::var("MC_SCHED_TRACE").is_ok() && res.executions == 1 {
+            eprintln!("TRACE {}", trace.join(" "));
+        }
+        for t in trace.iter() {
+            if let Some((_, l)) = t.split_once('@') {
+                if !res.labels.contains(l) {
+                    res.labels.insert(l.to_string());
+                }
+            }
+        }
         let schedule: Vec<usize> = steps.iter().map(|s| s.chosen).collect();
         let panics = THREAD_PANICS.lock().unwrap().clone();
         let verdict: Result<String, (String, String)> = match out {
@@ -929,6 +945,117 @@ impl SchedX {
                     }),
                 }
             }
+            // beatree leaf/branch stage workers of ONE commit under scheduler control: 3 workers whose
+            // ranges are three consecutive leaves; every one of them shrinks its leaf below the
+            // merge threshold, so the workers negotiate node ownership (extend-range protocol)
+            "M2del" | "M2shrink" | "M2wipe" => {
+                let mut cf = cfg();
+                cf.cc = 3;
+                cf.rollback = false;
+                let key = "branch".to_string();
+                if !self.seeds.contains_key(&key) {
+                    let seed = crate::histx::build_seed::<B3>("branch", &cf, &self.scratch);
+                    let meta = crate::imgdec::decode_meta(&seed.image).expect("seed meta");
+                    let vals = crate::imgdec::decode_values::<B3>(&seed.image, &meta).expect("seed decodes");
+                    let mut leaves: Vec<Vec<Key>> = vals.leaves.iter().map(|l| l.cells.iter().map(|c| c.0).collect()).collect();
+                    leaves.sort();
+                    // three consecutive full leaves in the middle of the tree
+                    let mid = leaves.len() / 2;
+                    let pick: Vec<Vec<Key>> = (mid..leaves.len()).take_while(|i| i + 2 < leaves.len()).find(|i| (0..3).all(|j| leaves[i + j].len() >= 3)).map(|i| leaves[i..i + 3].to_vec()).expect("three full leaves");
+                    self.seeds.insert(key.clone(), Arc::new((seed.image.clone(), seed.model.kv.clone(), pick)));
+                }
+                let seed = self.seeds[&key].clone();
+                let dir = self.fresh();
+                seed.0.materialize(&dir).expect("materialize");
+                let n = Arc::new(open_nomt::<B3>(&dir, &cf).expect("open"));
+                let errs = Arc::new(Mutex::new(Vec::<String>::new()));
+                let (n1, e1) = (n.clone(), errs.clone());
+                let variant = name.to_string();
+                let seed2 = seed.clone();
+                let dir2 = dir.clone();
+                Execution {
+                    threads: vec![Box::new(move || {
+                        use crate::driver::Act;
+                        let leaves = &seed2.2;
+                        let mut batch: Vec<(Key, Act)> = vec![];
+                        for (i, l) in leaves.iter().enumerate() {
+                            match variant.as_str() {
+                                // two of three values gone: every leaf is left with one 1300-byte cell
+                                "M2del" => {
+                                    batch.push((l[0], Act::Write(None)));
+                                    batch.push((l[1], Act::Write(None)));
+                                }
+                                // all values shrink to one byte; the last leaf is deleted entirely
+                                "M2shrink" => {
+                                    for k in l.iter().take(3) {
+                                        batch.push((*k, if i == 2 { Act::Write(None) } else { Act::Write(Some(val(40 + i as u8))) }));
+                                    }
+                                }
+                                // the middle leaf disappears, its neighbours shrink
+                                _ => {
+                                    for (j, k) in l.iter().take(3).enumerate() {
+                                        batch.push((*k, if i == 1 || j == 0 { Act::Write(None) } else { Act::Write(Some(val(50 + j as u8))) }));
+                                    }
+                                }
+                            }
+                        }
+                        batch.sort_by(|a, b| a.0.cmp(&b.0));
+                        let s = n1.begin_session(SessionParams::default());
+                        let actuals = match crate::driver::Db::<B3>::actuals(&s, &batch, &seed2.1) {
+                            Ok(a) => a,
+                            Err(m) => {
+                                e1.lock().unwrap().push(m);
+                                return;
+                            }
+                        };
+                        let fin = match s.finish(actuals) {
+                            Ok(f) => f,
+                            Err(e) => {
+                                e1.lock().unwrap().push(format!("finish failed: {e:#}"));
+                                return;
+                            }
+                        };
+                        let mut after = seed2.1.clone();
+                        crate::refmodel::Model::apply(&mut after, &crate::driver::writes_of(&batch));
+                        sc::control_group(sc::BEATREE_WORKERS, true);
+                        let r = fin.commit(&n1);
+                        sc::control_group(sc::BEATREE_WORKERS, false);
+                        if let Err(e) = r {
+                            e1.lock().unwrap().push(format!("commit failed: {e:#}"));
+                            return;
+                        }
+                        let mut m = crate::refmodel::Model::new(false, 0);
+                        m.kv = after;
+                        m.seqn = n1.sync_seqn();
+                        // every key of the three leaves and their neighbours, plus a sample of the rest
+                        let mut keys: Vec<Key> = leaves.iter().flatten().cloned().collect();
+                        keys.extend(m.kv.keys().step_by(7).cloned());
+                        if let Err(x) = crate::driver::audit::<B3>(&n1, &m, &keys, crate::driver::AuditFlags::ALL) {
+                            e1.lock().unwrap().push(format!("after the commit: {x}"));
+                            return;
+                        }
+                        // the directory must decode to exactly the model, with every page accounted for
+                        match DirImage::snapshot(&dir2) {
+                            Ok(img) => {
+                                let opts = crate::imgdec::CheckOpts { structure: true, kv_equals_model: true, merkle: true, leaks: true };
+                                if let Err(x) = crate::imgdec::check_image::<B3>(&img, &m.kv, &opts) {
+                                    e1.lock().unwrap().push(format!("on-disk image after the commit: {x}"));
+                                }
+                            }
+                            Err(e) => e1.lock().unwrap().push(format!("snapshot: {e}")),
+                        }
+                    })],
+                    finish: Box::new(move || {
+                        sc::control_group(sc::BEATREE_WORKERS, false);
+                        let e = errs.lock().unwrap().clone();
+                        drop(n);
+                        if !e.is_empty() {
+                            return Err(e.join("; "));
+                        }
+                        Ok("ok".into())
+                    }),
+                }
+            }
             _ => panic!("unknown harness {name}"),
         }
     }
@@ -952,6 +1079,11 @@ impl SchedX {
         if res.capped {
             out.goals.push("execution-cap-hit");
         }
+        for (label, goal) in [("ext.wait-response", "extend-range-requested"), ("leaf.wait-left", "leaf-worker-waited-for-left"), ("branch.wait-left", "branch-worker-waited-for-left"), ("merkle.publish", "merkle-root-page-published")] {
+            if res.labels.iter().any(|l| l.contains(label)) {
+                out.goals.push(goal);
+            }
+        }
         SCHED_STATS.lock().unwrap().push(json!({"harness": name, "bound": bound, "schedules": res.executions, "steps": res.steps, "distinct_outcomes": res.outcomes.iter().collect::<Vec<_>>(), "capped": res.capped}));
         if let Some((fp, msg, schedule, trace)) = res.violation {
             let fp = format!("{fp}:{name}");
@@ -967,6 +1099,12 @@ pub static SCHED_STATS: Mutex<Vec<Value>> = Mutex::new(Vec::new());
 /// Cases exploring the schedules of the merkle update workers (used by the C02 and C13 plans).
 pub fn worker_schedule_cases(thorough: bool) -> Vec<Value> {
     let mut cases = vec![];
+    for h in ["M2del", "M2shrink", "M2wipe"] {
+        // the whole schedule space of these harnesses is a few hundred executions: bound 99 = all
+        for b in [0u64, 1, 2, 99] {
+            cases.push(json!({"harness": h, "bound": b, "max_exec": if thorough { 400000 } else { 3000 }, "budget_s": if thorough { 1500 } else { 35 }}));
+        }
+    }
     for h in ["M1", "M1d"] {
         for b in if thorough { vec![0u64, 1, 2, 3, 99] } else { vec![0u64, 1, 2] } {
             cases.push(json!({"harness": h, "bound": b, "max_exec": if thorough { 400000 } else { 3000 }, "budget_s": if thorough { 1500 } else { 35 }}));
